@@ -66,6 +66,10 @@ def wf_jobs(prop, tier, rules=None, cell=(2024, 2), lift=True, timeout=None, ext
             spec["years"] = years
             spec["ym"] = [[2024, 2]]
             spec["maxdur"] = 12 if tier == "quick" else 120
+        if name not in ARITH and any(a[0] == "art" and str(a[1]).startswith("I:") and "year" in str(a[1]) for a in ob["args"]):
+            # dated interval ends: same year-month cell as for the date-arithmetic rules (the
+            # ordering clause of WF on two symbolic dates is what is expensive)
+            spec["ym"] = [[2024, 2]]
         npod = sum(str(a[1]).count("POD") for a in ob["args"])
         if npod >= 2:
             spec["pods"] = mp
@@ -92,7 +96,7 @@ def wf_jobs(prop, tier, rules=None, cell=(2024, 2), lift=True, timeout=None, ext
             env = {"VQ_PROP": prop, "VQ_SPEC": json.dumps(spec_v), "VQ_Y": str(cell_v[0]), "VQ_M": str(cell_v[1])}
             bounds = ("arguments: every field present in the shape symbolic over the invariant WF (year 1880..2109{}), parts of day by index over the live table, "
                       "regex groups by presence pattern and numeric range; ts: every time of day on the first and on the last day of {}-{:02d}{}"
-                      .format("" if not years else "; fully dated arguments in year-month cells {}, duration amount <= {}".format(spec["ym"], spec["maxdur"]), cell[0], cell[1],
+                      .format("" if not spec.get("ym") else "; fully dated arguments in year-month cells {}, duration amount <= {}".format(spec["ym"], spec.get("maxdur", "n/a")), cell[0], cell[1],
                               "; parts of day restricted to {} table keys".format(len(spec["pods"])) if "pods" in spec else ""))
             jobs.append(Job("{}.WF[{}]{}".format(prop, key, suffix), "vq.harness.h_wf", "ob_step", env=env,
                             timeout=timeout or (600 if tier == "quick" else 1500), bounds=bounds + "; clauses " + ",".join(spec["clauses"] or ["all"]),
